@@ -26,10 +26,11 @@ type vf26Case struct {
 type vf26Dec struct {
 	OK    bool   `json:"ok"`
 	Path  string `json:"path"`
-	U     int64  `json:"u"`
+	D     int64  `json:"d"` // returned start: days since 1970-01-01 (UTC) ...
+	S     int64  `json:"s"` // ... and second of that day (Unix seconds do not fit the model's integers after 2038)
 	US    int    `json:"us"`
 	Off   int    `json:"off"` // UTC offset of the returned time at that instant, minutes
-	Big   bool   `json:"big"` // instant not representable in the model (outside 0..2^31, odd offset)
+	Big   bool   `json:"big"` // instant not representable in the model (outside 0..9999999999, odd offset)
 	Panic bool   `json:"panic"`
 }
 
@@ -55,11 +56,12 @@ func vf26Decode(format string, file string) vf26Dec {
 	sec := d.Start.Unix()
 	_, off := d.Start.Zone()
 	ns := d.Start.Nanosecond()
-	if sec < 0 || sec > 2147000000 || off%60 != 0 || ns%1000 != 0 {
+	if sec < 0 || sec > 9999999999 || off%60 != 0 || ns%1000 != 0 {
 		r.Big = true
 		return r
 	}
-	r.U = sec
+	r.D = sec / 86400
+	r.S = sec % 86400
 	r.US = ns / 1000
 	r.Off = off / 60
 	return r
